@@ -22,7 +22,11 @@ PROP = "C05"
 LEVEL = "exploration"
 
 REAL = ["direct", "arg", "default", "if", "argname", "argkey"]
-ATOMS = ["", "x", "0", "1", "-1", "1.5", "1e9", "12345678901234567890", "Talk:x", "a/b/c", "{{e}}", "=", "²", "{{e|²=1}}"]
+ATOMS = ["", "x", "0", "1", "-1", "1.5", "1e9", "12345678901234567890", "Talk:x", "a/b/c", "{{e}}", "=", "²", "{{e|²=1}}",
+         # argument names that look numeric but cannot be converted: non-ASCII digit, more digits than int() accepts
+         "{{pu|x}}", "²=1", "9" * 5000 + "=1", "{{e|" + "9" * 5000 + "=1}}", "{{{" + "1" * 5000 + "|}}}"]
+# a template body that contains a raw private-use character from the range of the internal placeholders
+PU_BODY = "a\U00103000b{{{1}}}"
 ALIASES = {"#ausdruck": "#expr", "#wenn": "#if", "kleinb": "lc", "#laenge": "#len", "auffuellen": "padleft", "seitenname": "PAGENAME"}
 TITLES = ["Tt", "Talk:x", "Special:x", "Media:x"]
 SKIP_FNS = {"#property", "#statements", "#invoke"}   # network / other properties
@@ -213,6 +217,7 @@ def work(payload, skip, report):
     kind = payload[0]
     ctx = new_ctx()
     ctx.add_page("Template:e", 10, "")
+    ctx.add_page("Template:pu", 10, PU_BODY)
     if kind == "graphs":
         _, n, graphs = payload
         i = 0
@@ -237,7 +242,8 @@ def work(payload, skip, report):
         _, depths = payload
         i = 0
         for d in depths:
-            for shape in ("chain", "literal", "literal_pf", "default_tower"):
+            for shape in ("chain", "literal", "literal_pf", "default_tower", "pf_test", "ifeq_left", "switch_subject", "expr_arg",
+                          "lc_arg", "named_value", "second_positional", "ifexpr_test"):
                 case = {"tower": shape, "depth": d}
                 if i in skip:
                     acc.violation("returns_in_time", case, "hang", "returns")
@@ -256,6 +262,27 @@ def work(payload, skip, report):
                     text, want = "{{a|" * d + "x" + "}}" * d, "[" * d + "x" + "]" * d
                 elif shape == "literal_pf":
                     text, want = "{{#if:1|" * d + "x" + "}}" * d, "x"
+                # nesting in the other argument positions (the construct's first / test argument, a named value, ...)
+                elif shape == "pf_test":
+                    text, want = "{{#if:" * d + "x" + "|y|n}}" * d, "y"
+                elif shape == "ifeq_left":
+                    text, want = "{{#ifeq:" * d + "x" + "|x|x|n}}" * d, "x"
+                elif shape == "switch_subject":
+                    text, want = "{{#switch:" * d + "x" + "|x=x|n}}" * d, "x"
+                elif shape == "expr_arg":
+                    text, want = "{{#expr:1+" * d + "1" + "}}" * d, str(d + 1)
+                elif shape == "ifexpr_test":
+                    text, want = "{{#ifexpr:" * d + "1" + "|1|0}}" * d, "1"
+                elif shape == "lc_arg":
+                    text, want = "{{lc:" * d + "X" + "}}" * d, "x"
+                elif shape == "named_value":
+                    ctx.add_page("Template:a", 10, "[{{{1|}}}]")
+                    type(ctx).get_page.cache_clear()
+                    text, want = "{{a|1=" * d + "x" + "}}" * d, "[" * d + "x" + "]" * d
+                elif shape == "second_positional":
+                    ctx.add_page("Template:b", 10, "[{{{2|}}}]")
+                    type(ctx).get_page.cache_clear()
+                    text, want = "{{b|z|" * d + "x" + "}}" * d, "[" * d + "x" + "]" * d
                 else:
                     text, want = "{{{p|" * d + "x" + "}}}" * d, "x"
                 ctx.start_page("Tt")
@@ -270,6 +297,8 @@ def work(payload, skip, report):
                 if ERR in got:
                     if not any("too deep" in m or "loop" in m.lower() for m in msgs):
                         acc.violation("depth_records_message", case, msgs[:2], "an error/warning recorded")
+                elif any("too deep" in m for m in msgs):
+                    pass   # the depth limit was reported; an enclosing conditional has consumed the error element as plain text
                 elif got != want:
                     acc.violation("tower_equals_reference", case, got[:200], want[:200])
         acc.sample({"towers": depths[:3]})
@@ -315,6 +344,7 @@ def work(payload, skip, report):
         close_ctx(ctx)
         ctx = new_ctx(parser_function_aliases=dict(ALIASES))
         ctx.add_page("Template:e", 10, "")
+        ctx.add_page("Template:pu", 10, PU_BODY)
         i = 0
         for alias, target in ALIASES.items():
             if target == "#expr":
@@ -402,6 +432,7 @@ def replay(case):
         return None
     ctx = new_ctx(parser_function_aliases=dict(case["aliases"])) if "aliases" in case else new_ctx()
     ctx.add_page("Template:e", 10, "")
+    ctx.add_page("Template:pu", 10, PU_BODY)
     out = []
     try:
         ctx.start_page(case.get("title", "Tt"))
